@@ -70,12 +70,14 @@ let page_string = function
 
 let http_string = function Merkle.HBadBatch -> "400/ErrInvalidBatchSize" | Merkle.HPage p -> page_string p
 
-(* the page size the handler passes on, or None when it answers 400 *)
-let batch_nat (b : Merkle.batch_arg) : int option =
+(* the page size the handler passes on (as a Coq Z), or None when it answers 400 (malformed, negative, above 2^63-1) *)
+let max_int64 = Z.of_string "9223372036854775807"
+let batch_z (b : Merkle.batch_arg) : BinNums.coq_Z option =
   match b with
-  | Merkle.BAbsent -> Some 2000
+  | Merkle.BAbsent -> Some (z_of_int 2000)
   | Merkle.BJunk -> None
-  | Merkle.BInt z -> let i = Z.to_int (zt_of_z z) in if i < 0 then None else Some i
+  | Merkle.BInt z -> let v = zt_of_z z in if Z.sign v < 0 || Z.gt v max_int64 then None else Some z
+let ge1 (z : BinNums.coq_Z) = Z.sign (zt_of_z z) > 0
 
 let split_arg a = let i = Stdlib.String.index a ':' in (Stdlib.String.sub a 0 i, after (i + 1) a)
 
@@ -91,10 +93,11 @@ let model input =
         let (b, k) = split_arg a in
         out := http_string (Merkle.page_http hlt !s (batch_of_tok b) (key_of_tok k)) :: !out
       | Q ("w", a) ->
-        (match batch_nat (batch_of_tok a) with
+        (match batch_z (batch_of_tok a) with
          | None -> out := "400/ErrInvalidBatchSize" :: !out
          | Some b ->
-           let pages = Merkle.walk_pages (nat_of_int (Stdlib.List.length !s + 3)) hlt !s (nat_of_int b) in
+           (* Merkle.cap: the count capped at rows + 1 (C08_page_http_cap: the same pages) *)
+           let pages = Merkle.walk_pages (nat_of_int (Stdlib.List.length !s + 3)) hlt !s (Merkle.cap !s b) in
            out := Stdlib.String.concat "+" (Stdlib.List.map page_string pages) :: !out)
       | Q ("c", a) ->
         let r = Merkle.page_http hlt !s (batch_of_tok a) !cursor in
@@ -142,9 +145,10 @@ let spec input obs =
     let acc = ref [] and listings = ref [] in      (* interleaved walk: contents so far, listings seen *)
     let next () = let b = Stdlib.List.hd !blocks in blocks := Stdlib.List.tl !blocks; incr qi; b in
     (* one observed page against the declarative page for (batch, key); returns the parsed page *)
-    let check_page what (b : string) (batch : int) (key : BinNums.coq_N option) : Merkle.page_result option =
+    let check_page what (b : string) (batch : BinNums.coq_Z) (key : BinNums.coq_N option) : Merkle.page_result option =
       let tip = ChainSpec.spec_tip !ss in
-      let want = Merkle.spec_page !ss tip (nat_of_int batch) key in
+      (* "at most batch entries": a count above the number of rows is capped at rows + 1 to stay executable *)
+      let want = Merkle.spec_page !ss tip (Merkle.cap !ss batch) key in
       if b = "PANIC" then (fail "panic" (Printf.sprintf "query %d" !qi); None) else
         match (try Some (parse_page b) with _ -> None) with
         | None -> fail "unexpected-answer" (Printf.sprintf "query %d %s got %s want %s" !qi what b (page_string want)); None
@@ -176,18 +180,18 @@ let spec input obs =
             match t with
             | "p" ->
               let (bt, k) = split_arg a in
-              (match batch_nat (batch_of_tok bt) with
+              (match batch_z (batch_of_tok bt) with
                | None -> if b <> "400/ErrInvalidBatchSize" then fail "bad-batch-not-rejected" (Printf.sprintf "query %d got %s" !qi b)
                | Some n -> ignore (check_page "page" b n (key_of_tok k)))
             | "c" ->
-              (match batch_nat (batch_of_tok a) with
+              (match batch_z (batch_of_tok a) with
                | None -> if b <> "400/ErrInvalidBatchSize" then fail "bad-batch-not-rejected" (Printf.sprintf "query %d got %s" !qi b)
                | Some n ->
                  listings := Merkle.spec_listing !ss tip :: !listings;
                  (match check_page "continue" b n !cursor with
                   | Some (Merkle.POk (c, k, _)) ->
                     acc := !acc @ c; cursor := k;
-                    if k = None && n >= 1 then begin
+                    if k = None && ge1 n then begin
                       (* the walk is over: if the longest chain only grew while it ran, it was listed exactly once *)
                       let final = Merkle.spec_listing !ss tip in
                       let rec is_prefix a b = match a, b with [] , _ -> true | x :: a', y :: b' -> Merkle.pair_eqb x y && is_prefix a' b' | _, [] -> false in
@@ -197,7 +201,7 @@ let spec input obs =
                     end
                   | _ -> ()))
             | "w" ->
-              (match batch_nat (batch_of_tok a) with
+              (match batch_z (batch_of_tok a) with
                | None -> if b <> "400/ErrInvalidBatchSize" then fail "bad-batch-not-rejected" (Printf.sprintf "query %d got %s" !qi b)
                | Some n ->
                  let pages = split_on '+' b in
@@ -208,10 +212,10 @@ let spec input obs =
                        match check_page (Printf.sprintf "walk page %d" i) pb n !key with
                        | Some (Merkle.POk (c, k, _)) -> contents := c :: !contents; key := k; lastkey := k
                        | _ -> stop := true) pages;
-                 if !verdict = "OK" && n >= 1 then begin
+                 if !verdict = "OK" && ge1 n then begin
                    if !stop then fail "walk-page-error" (Printf.sprintf "query %d %s" !qi b)
                    else if !lastkey <> None then fail "walk-does-not-terminate" (Printf.sprintf "query %d %d pages" !qi (Stdlib.List.length pages))
-                   else if not (Merkle.spec_walk_ok !ss tip (nat_of_int n) (Stdlib.List.rev !contents)) then
+                   else if not (Merkle.spec_walk_ok !ss tip (Merkle.cap !ss n) (Stdlib.List.rev !contents)) then
                      fail "walk-incomplete" (Printf.sprintf "query %d got %s want %s" !qi b (content_string (Merkle.spec_listing !ss tip)))
                  end)
             | _ -> fail "unknown-operation" t
